@@ -14,6 +14,7 @@ import (
 	"mime"
 	"strconv"
 	"strings"
+	"sync/atomic"
 	"time"
 
 	"github.com/la5nta/wl2k-go/transport"
@@ -452,6 +453,10 @@ func (s *Session) writeCompressed(rw io.ReadWriter, p *Proposal) (err error) {
 
 	buffer := bytes.NewBuffer(p.compressedData[p.offset:])
 
+	// Number of bytes left in buffer. The status goroutine must not touch the buffer itself.
+	var remaining atomic.Int64
+	remaining.Store(int64(buffer.Len()))
+
 	// Update Status of message transfer every 250ms
 	statusTicker := time.NewTicker(250 * time.Millisecond)
 	statusDone := make(chan struct{})
@@ -459,7 +464,7 @@ func (s *Session) writeCompressed(rw io.ReadWriter, p *Proposal) (err error) {
 		for {
 			select {
 			case <-statusTicker.C:
-				if s.statusUpdater == nil || buffer == nil {
+				if s.statusUpdater == nil {
 					continue
 				}
 
@@ -469,7 +474,7 @@ func (s *Session) writeCompressed(rw io.ReadWriter, p *Proposal) (err error) {
 					txBufLen = b.TxBufferLen()
 				}
 
-				transferred := p.compressedSize - buffer.Len() - txBufLen
+				transferred := p.compressedSize - int(remaining.Load()) - txBufLen
 				if transferred < 0 {
 					transferred = 0
 				}
@@ -485,7 +490,7 @@ func (s *Session) writeCompressed(rw io.ReadWriter, p *Proposal) (err error) {
 				if s.statusUpdater != nil {
 					s.statusUpdater.UpdateStatus(Status{
 						Sending:          p,
-						BytesTransferred: p.compressedSize - buffer.Len(),
+						BytesTransferred: p.compressedSize - int(remaining.Load()),
 						BytesTotal:       p.compressedSize,
 						Done:             true,
 					})
@@ -509,6 +514,7 @@ func (s *Session) writeCompressed(rw io.ReadWriter, p *Proposal) (err error) {
 
 		for i := 0; i < msgLen; i++ {
 			c, _ := buffer.ReadByte()
+			remaining.Add(-1)
 			if err := writer.WriteByte(c); err != nil {
 				return err
 			}
@@ -612,6 +618,9 @@ func (s *Session) readCompressed(rw io.ReadWriter, p *Proposal) (err error) {
 		s.log.Println("GZIP_EXPERIMENT:", "Receiving gzip compressed message.")
 	}
 
+	// Number of bytes in buf. The status goroutine must not touch the buffer itself.
+	var received atomic.Int64
+
 	statusUpdate := make(chan struct{})
 	go func() {
 		for {
@@ -619,7 +628,7 @@ func (s *Session) readCompressed(rw io.ReadWriter, p *Proposal) (err error) {
 			if s.statusUpdater != nil {
 				s.statusUpdater.UpdateStatus(Status{
 					Receiving:        p,
-					BytesTransferred: buf.Len(),
+					BytesTransferred: int(received.Load()),
 					BytesTotal:       p.compressedSize,
 					Done:             !ok,
 				})
@@ -659,6 +668,7 @@ func (s *Session) readCompressed(rw io.ReadWriter, p *Proposal) (err error) {
 					return
 				}
 				buf.WriteByte(c)
+				received.Add(1)
 				ourChecksum = (ourChecksum + int(c)) % 256
 				if i%10 == 0 {
 					updateStatus()
